@@ -46,8 +46,15 @@ type engine interface {
 // ---- direct sys.System ----
 type sysEngine struct{ s *sys.System }
 
+// codeProps: in every other round the engine is configured with extra Env properties for scripts.
+var codeProps map[string]interface{}
+
+// timing: in every fifth round the timers are on and the table of timer names is tiny
+// (SystemParameters.MaxTimers), so that every request runs into the "too many timers" branch.
+var timing bool
+
 func newSysEngine(linear bool) *sysEngine {
-	s, err := drv.NewSys(drv.SysOpts{Linear: linear, TTL: sys.Forever}, cronner.New(true))
+	s, err := drv.NewSys(drv.SysOpts{Linear: linear, TTL: sys.Forever, CodeProps: codeProps, Timing: timing}, cronner.New(true))
 	if err != nil {
 		panic(err)
 	}
@@ -218,6 +225,11 @@ func genSeq(r *rand.Rand, loc string, n int) []req {
 		case 0, 1, 2:
 			out = append(out, req{"addFact", id, fmt.Sprintf(`{"owner":%q,"k":"v%d","n":%d}`, loc, r.Intn(3), i)})
 		case 3:
+			if r.Intn(2) == 0 {
+				// an action that takes a moment, writes through the location functions and reads Env
+				out = append(out, req{"addRule", "r" + id, fmt.Sprintf(`{"when":{"pattern":{"go":"?g"}},"action":{"code":"var t=0; for (var j=0;j<3000;j++){t+=j}; Env.AddFact('made-'+g, {owner: location, k: 'made', site: String(Env.site)}); Env.Location + '/' + location + ':' + g + ':%s-%d'"}}`, loc, i)})
+				break
+			}
 			out = append(out, req{"addRule", "r" + id, fmt.Sprintf(`{"when":{"pattern":{"go":"?g"}},"action":{"code":"location + ':' + g + ':%s-%d'"}}`, loc, i)})
 		case 4:
 			out = append(out, req{"event", "", fmt.Sprintf(`{"go":"e%d"}`, i)})
@@ -259,7 +271,16 @@ func main() {
 		for c := range seqs {
 			seqs[c] = genSeq(rng, fmt.Sprintf("loc%d", c), 12+rng.Intn(10))
 		}
-		r.Journal(rep.J{"round": round, "clients": n, "linear": linear, "http": viaHTTP})
+		timing = round%5 == 4
+		core.SystemParameters.MaxTimers = 1024
+		if timing {
+			core.SystemParameters.MaxTimers = 5
+		}
+		codeProps = nil
+		if round%2 == 1 || round%4 == 2 {
+			codeProps = map[string]interface{}{"site": "lab"}
+		}
+		r.Journal(rep.J{"round": round, "clients": n, "linear": linear, "http": viaHTTP, "code_props": codeProps != nil})
 		mk := func() engine {
 			if viaHTTP {
 				return newHTTPEngine(linear)
